@@ -66,10 +66,16 @@ harness(void)
 	for (size_t i = 0; i < sizeof(POST); i++)
 		raw[pl + NSYM + i] = POST[i];
 
-	nng_err rv = nng_url_parse(&u, raw);
+	/* the url struct lives on the stack (nng_url_parse only adds an allocation
+	 * around nni_url_parse_inline; that wrapper is covered by c19/clone.c) */
+	nng_url ustore;
+	memset(&ustore, 0, sizeof(ustore));
+	u          = &ustore;
+	nng_err rv = nni_url_parse_inline(u, raw);
 	if (rv != NNG_OK) {
-		CHECK(u == NULL, "failed parse returns no URL");
+#ifndef NO_REJECT
 		WITNESS("rejected");
+#endif
 		return;
 	}
 	WITNESS("accepted");
@@ -144,7 +150,9 @@ harness(void)
 			}
 			CHECK(seen_digit, "port text has digits");
 			CHECK(val == u->u_port || val == 0, "port value equals the number written");
+#ifdef HAS_PORT
 			WITNESS("explicit port accepted");
+#endif
 		}
 		/* canonical path */
 		for (size_t i = 0; u->u_path[i]; i++) {
@@ -182,5 +190,5 @@ harness(void)
 		}
 	}
 #endif
-	nng_url_free(u);
+	nni_url_fini(u);
 }
